@@ -856,4 +856,7 @@ def run(repo: Repo) -> Result:
     flow = rule_r1_r3(cx, cons)
     rule_r2(cx, cons, flow)
     rule_r4(cx)
+    from .c09_r5 import rule_r5
+
+    rule_r5(cx)
     return res
